@@ -333,6 +333,8 @@ struct Root {
     app: usize,
     fcnt: u32,
     label: String,
+    /// presented as built only (value sweeps); other roots are also mutated
+    sweep: bool,
 }
 
 fn roots(th: bool) -> Vec<Root> {
@@ -389,9 +391,40 @@ fn roots(th: bool) -> Vec<Root> {
                             app,
                             fcnt,
                             label: format!("data(m{mtype},fol{fol},k{kind},len{len})"),
+                            sweep: false,
                         });
                     }
                 }
+            }
+        }
+    }
+    // every FPort value: the key is chosen by "port 0 or not" and by nothing else
+    for port in 1..=255u8 {
+        for mtype in [2u8, 5] {
+            for fol in [0usize, 3] {
+                let d = DataDesc {
+                    mtype,
+                    devaddr: 0x2601_1234,
+                    adr: false,
+                    adr_ack_req: false,
+                    ack: false,
+                    f_pending: mtype == 5,
+                    fcnt: 0x2_0005,
+                    fopts: (0..fol).map(|i| 0xB0 + i as u8).collect(),
+                    fport: Some(port),
+                    frm: vec![0x11, 0x22, 0x33, 0x44, 0x55],
+                };
+                let bytes = refcodec::encode_data(&d, &KEYS[nwk], &KEYS[app]).unwrap();
+                let flags = bytes[5] & 0xf0;
+                out.push(Root {
+                    desc: Some(RootDesc { mtype, devaddr: d.devaddr, fctrl_flags: flags, fcnt: d.fcnt, fopts: hex(&d.fopts), fport: d.fport, frm: hex(&d.frm), nwk, app }),
+                    bytes,
+                    nwk,
+                    app,
+                    fcnt: d.fcnt,
+                    label: format!("data(m{mtype},fol{fol},port{port})"),
+                    sweep: true,
+                });
             }
         }
     }
@@ -401,7 +434,7 @@ fn roots(th: bool) -> Vec<Root> {
         .enumerate()
     {
         let d = JoinAcceptDesc { join_nonce: 0x010203, net_id: 0x040506, devaddr: 0x2601_1234, dl_settings: 0x35, rx_delay: 5, cflist: cf };
-        out.push(Root { bytes: refcodec::encode_join_accept(&d, &KEYS[nwk]), desc: None, nwk, app, fcnt: 0, label: format!("joinaccept{i}") });
+        out.push(Root { bytes: refcodec::encode_join_accept(&d, &KEYS[nwk]), desc: None, nwk, app, fcnt: 0, label: format!("joinaccept{i}"), sweep: false });
     }
     out.push(Root {
         bytes: refcodec::encode_join_request(&[1, 2, 3, 4, 5, 6, 7, 8], &[9, 8, 7, 6, 5, 4, 3, 2], 0xBEEF, &KEYS[nwk]),
@@ -410,6 +443,7 @@ fn roots(th: bool) -> Vec<Root> {
         app,
         fcnt: 0,
         label: "joinrequest".into(),
+        sweep: false,
     });
     out
 }
@@ -484,6 +518,10 @@ pub fn run(tier: Tier, replay: Option<&str>) {
     roots.par_iter().for_each(|r| {
         let mut local: Vec<u64> = vec![fx(&r.bytes)];
         present(r, &r.bytes, &r.label, r.desc.as_ref(), true);
+        if r.sweep {
+            states.lock().unwrap().extend(local);
+            return;
+        }
         let m1 = mutations(&r.bytes);
         transitions.fetch_add(m1.len() as u64, Ordering::Relaxed);
         for (l1, b1) in &m1 {
@@ -508,7 +546,7 @@ pub fn run(tier: Tier, replay: Option<&str>) {
     let short = AtomicU64::new(0);
     (0..=255u32).into_par_iter().for_each(|b0| {
         let mut n = 0u64;
-        let r0 = Root { bytes: vec![], desc: None, nwk: 2, app: 4, fcnt: 0, label: "short".into() };
+        let r0 = Root { bytes: vec![], desc: None, nwk: 2, app: 4, fcnt: 0, label: "short".into(), sweep: false };
         let mut go = |s: &[u8]| {
             let c = Case { bytes: hex(s), nwk: r0.nwk, app: r0.app, fcnt: 0, path: "short".into(), root_desc: None };
             for (sig, what) in eval(&c) {
@@ -549,7 +587,7 @@ pub fn run(tier: Tier, replay: Option<&str>) {
         "samples": samples,
         "evaluations": ctx.evals(),
         "distinct_nontrivial": nstates,
-        "rule": "states = distinct byte strings executed on the real parser at mutation depth <= 1 from every root plus every byte string of length 0..maxlen (counted exactly); depth-2 strings are counted separately as generated (duplicates possible); transitions = mutation edges applied; every state is presented under key sets {right, swapped, wrong} x counter hints {N, N+-0x10000, low half off, 0}",
+        "rule": "states = distinct byte strings executed on the real parser at mutation depth <= 1 from every root (frames with every FPort 1..255 are presented unmutated) plus every byte string of length 0..maxlen (counted exactly); depth-2 strings are counted separately as generated (duplicates possible); transitions = mutation edges applied; every state is presented under key sets {right, swapped, wrong} x counter hints {N, N+-0x10000, low half off, 0}",
         "roots": roots.len(),
         "depth": if th { 2 } else { 1 },
         "depth2_strings_generated": depth2.load(Ordering::Relaxed),
